@@ -365,6 +365,16 @@ var edits = []progEdit{
 			return t, false
 		}
 		for _, st := range q.Stages {
+			for i, f := range st.Outs {
+				if f.Name == "zz_unused" && r[st.Name] {
+					if nt, ok := flip(f.T); ok {
+						st.Outs[i].T = nt
+						return q, "", true
+					}
+				}
+			}
+		}
+		for _, st := range q.Stages {
 			if !r[st.Name] || strings.HasPrefix(st.Name, "PFST") || referenced[st.Name+".*"] {
 				continue
 			}
@@ -452,6 +462,16 @@ var edits = []progEdit{
 				return Ty{t.Base, outer + inner[1:]}, true
 			}
 			return Ty{t.Base, outer + inner + "a"}, true
+		}
+		for _, st := range q.Stages {
+			for i, f := range st.Outs {
+				if f.Name == "zz_unused" && r[st.Name] {
+					if nt, ok := flip(f.T); ok {
+						st.Outs[i].T = nt
+						return q, "", true
+					}
+				}
+			}
 		}
 		for _, st := range q.Stages {
 			if !r[st.Name] || strings.HasPrefix(st.Name, "PFST") || referenced[st.Name+".*"] {
@@ -876,6 +896,44 @@ func c15Case(c *Ctx) {
 		prog = templateStructRefProg(c.Plan)
 		c.Res.Probes["struct-reference-template"]++
 	}
+	if c.Plan.Draw(3) == 0 {
+		// an output nobody refers to, of a collection type: what the type edits
+		// (map dimension, array depth) can change while the program still compiles
+		shapes := []Ty{{"txt", "m"}, {"txt", "ma"}, {"txt", "maa"}, {"txt", "a"}, {"txt", "aa"}, {"int", "m"}, {"int", "ma"}, {"int", "aa"}, {"string", "am"}, {"file", "m"}}
+		for _, st := range prog.Stages {
+			if reachable(prog)[st.Name] && !strings.HasPrefix(st.Name, "PFST") && c.Plan.Draw(2) == 0 {
+				t := shapes[c.Plan.Draw(len(shapes))]
+				anyMapped := false
+				for _, pl := range prog.Pipelines {
+					for _, cc := range pl.Calls {
+						if cc.Mapped {
+							anyMapped = true
+						}
+					}
+				}
+				if anyMapped && strings.Contains(t.Dims, "m") {
+					// a typed-map output of a callee that is map-called over a typed
+					// map makes mrp panic when it serialises the final state
+					// (DESIGN.md section 14, D4)
+					t = Ty{t.Base, "aa"}
+				}
+				if t.Base == "txt" {
+					has := false
+					for _, ft := range prog.FileTypes {
+						if ft == "txt" {
+							has = true
+						}
+					}
+					if !has {
+						prog.FileTypes = append(prog.FileTypes, "txt")
+					}
+				}
+				st.Outs = append(st.Outs, Field{"zz_unused", t})
+				c.Res.Probes["unreferenced-collection-output-added"]++
+				break
+			}
+		}
+	}
 	// declare (without using it) an alternative version of one reachable stage: same
 	// inputs, one more output, opposite split behaviour
 	for _, st := range prog.Stages {
@@ -916,6 +974,9 @@ func c15Case(c *Ctx) {
 	})
 	c.Res.Class = "twin-" + twin.Class()
 	if twin.Class() != "complete" || len(twin.Panics) > 0 {
+		if twin.Class() == "failed" {
+			c.Res.Notes = append(c.Res.Notes, "base run failed: "+lastLines(twin.outBuf.String(), 6))
+		}
 		return
 	}
 	act, err := twin.ReadTopOuts()
